@@ -130,3 +130,14 @@ Theorem C01_hypotheses_satisfiable :
   run N N rapply reg_hist (init_node N rinit) KConfig = 7%N /\
   run N N rapply reg_hist (init_node N rinit) KSequence = 2%N.
 Proof. exact (conj reg_snap_routed (conj reg_roundtrip reg_in_scope)). Qed.
+
+(** NOT covered by C01_restart_reproduces (partial): compaction concurrent with apply.  If a
+    component writes its records after entries beyond the header's last_index were applied,
+    the restart applies those entries twice.  With exact snapshots (j = 0) the restart is
+    exact; with j = 1 on an accumulating component it is not (witness; the harness samples
+    the real race). *)
+Theorem C01_concurrent_compaction_refuted :
+  run N N rapply racy_hist (init_node N rinit) KConfig = 7%N /\
+  restart_racy N N rapply rsnap rload rinit racy_hist 1 (fun _ => 0%nat) KConfig = 7%N /\
+  restart_racy N N rapply rsnap rload rinit racy_hist 1 (fun c => match c with KConfig => 1%nat | _ => 0%nat end) KConfig = 9%N.
+Proof. exact concurrent_compaction_double_applies. Qed.
